@@ -195,3 +195,29 @@ class Run:
         }
         with open(os.path.join(EVIDENCE_DIR, f"{self.pid}.json"), "w") as fh:
             json.dump(ev, fh, indent=1, default=str)
+
+
+class RuleView:
+    """A sibling property re-uses one rule of another property's checker: obligations of rule `only` are recorded on the
+    real run under the name `as_rule`; everything else that checker does is ignored."""
+
+    def __init__(self, run, only, as_rule):
+        self._run, self._only, self._as = run, only, as_rule
+        self.explanation = ""
+
+    def ob(self, rule, ok, *a, **kw):
+        if rule == self._only:
+            return self._run.ob(self._as, ok, *a, **kw)
+        return None
+
+    def floor(self, *a, **kw):
+        pass
+
+    def require(self, cond, msg=""):
+        pass
+
+    def cover(self, **kw):
+        pass
+
+    def info(self, *a, **kw):
+        pass
